@@ -231,6 +231,23 @@ def build_sizer_arch(goarch):
         return exe if p.returncode == 0 else None
 
 
+def build_api_arch(goarch):
+    """The library driver (harness/apidriver) cross-built against /repo's working tree for another architecture; None when
+    this machine cannot build or run it."""
+    with Lock("go"):
+        ad = os.path.join(VERIF, "harness", "apidriver")
+        exe = os.path.join(BUILD, "apidriver-" + goarch)
+        env = dict(GOENV, GOARCH=goarch, CGO_ENABLED="0")
+        rc, out = run(["go", "build", "-o", exe, "."], cwd=ad, env=env, timeout=900)
+        if rc != 0:
+            return None
+        try:
+            p = subprocess.run([exe], input=b"fmt metric 1\n", stdout=subprocess.PIPE, stderr=subprocess.PIPE, timeout=20)
+        except Exception:
+            return None
+        return exe if p.returncode == 0 and p.stdout.strip() else None
+
+
 def batch(exe, lines, timeout=600, env=None):
     """Feed request lines to a line-protocol process, return answer lines (env: variables to add; None deletes one)."""
     data = ("\n".join(lines) + "\n").encode()
